@@ -264,6 +264,7 @@ def hooks_present():
 def doc_text(c, flags=()):
     """content id c: namespace urn:c<c>, one object n<c>.  flags: not_wf, bad_header, bad_body"""
     alias = "garbage-no-equals" if "bad_header" in flags else "i=47"
+    # the alias name "Link" is the same in every document but stands for another reference type (depends on c)
     # the NodeId texts are the same in every document (what differs is the namespace they denote and the names),
     # so that anything keyed by the text alone across calls shows
     nid = "ns=7;i=1000" if "bad_body" in flags else "ns=1;i=1000"
@@ -271,12 +272,13 @@ def doc_text(c, flags=()):
          '<NamespaceUris><Uri>urn:c%d</Uri></NamespaceUris>'
          '<Models><Model ModelUri="urn:c%d" Version="1.%d" PublicationDate="2020-01-01T00:00:00Z">'
          '<RequiredModel ModelUri="http://opcfoundation.org/UA/" Version="1.04" PublicationDate="2019-05-01T00:00:00Z"/></Model></Models>'
-         '<Aliases><Alias Alias="HasComponent">%s</Alias></Aliases>'
+         '<Aliases><Alias Alias="HasComponent">%s</Alias><Alias Alias="Link">%s</Alias></Aliases>'
          '<UAObject NodeId="%s" BrowseName="1:n%d"><DisplayName>n%d</DisplayName><References>'
-         '<Reference ReferenceType="HasComponent" IsForward="false">i=85</Reference></References></UAObject>'
+         '<Reference ReferenceType="HasComponent" IsForward="false">i=85</Reference>'
+         '<Reference ReferenceType="Link">i=84</Reference></References></UAObject>'
          '<UAVariable NodeId="ns=1;i=%d" BrowseName="1:v%d" DataType="i=6"><DisplayName>v%d</DisplayName><References/>'
          '<Value><Int32 xmlns="http://opcfoundation.org/UA/2008/02/Types.xsd">%d</Int32></Value></UAVariable>'
-         '</UANodeSet>\n') % (c, c, c, alias, nid, c, c, 5000, c, c, c)
+         '</UANodeSet>\n') % (c, c, c, alias, ["i=35", "i=46", "i=47", "i=40"][c % 4], nid, c, c, 5000, c, c, c)
     if "not_wf" in flags:
         t = t[: len(t) // 2]
     return t
@@ -395,6 +397,7 @@ class Scheduler:
         def worker(t):
             ctl.local.tid = t
             try:
+                self.arrive(t, "begin")          # when a call STARTS is part of the schedule too
                 results[t] = ("ok", ctl.run(targets[t]))
             except BaseException as e:  # noqa: BLE001
                 results[t] = ("exc", e)
@@ -426,6 +429,8 @@ def model_schedule(executed):
     last = {}
     sched = []
     for t, op in executed:
+        if op == "begin":
+            continue                  # the start of a call is not an operation of the protocol
         prev = last.get(t)
         if prev == op and op in ("encode", "decode", "iterate"):
             continue                  # a further stop inside a thread-local loop: same model operation
